@@ -120,7 +120,7 @@ def run(rep):
         if a not in src: rep.canary(name, False, 'mutation site not found (stale canary)'); continue
         try:
             E = pyvc.run_function(core.Fn(RM, qual, src_override=src.replace(a, b)), mk())
-            bad = [ob.label for ob, st, dt, det, mv in pyvc.decide_parallel(E, E.spec, timeout=20000) if st != 'proved']; rep.canary(name, bool(bad), str(bad[:3]))
+            bad = [ob.label for ob, st, dt, det, mv in pyvc.decide_parallel(E, E.spec, timeout=20000, canary=True) if st != 'proved']; rep.canary(name, bool(bad), str(bad[:3]))
         except pyvc.Unsupported as e: rep.canary(name, True, f'mutant leaves the engine subset: {e}')
     rep.trust('re.search(regex, scope) and the support check are pure functions (uninterpreted); the support check raises only ValueError (C13 clause c1, exhaustive)')
     rep.trust('collections.OrderedDict = insertion-ordered map (engine dict model); dataclass equality of configs abstracted to value identity, the default config being one distinguished value')
